@@ -119,7 +119,7 @@ def _strip(f):
     return f
 
 
-@rule("C20.2", ["C20", "C03"], "query methods never create entries in the defaultdict indexes", 3)
+@rule("C20.2", ["C20", "C03", "C09"], "query methods never create entries in the defaultdict indexes", 3)
 def c20_2(ctx: Ctx):
     """
     self._return_edges / self._proxy_return_edges are defaultdicts and
